@@ -279,7 +279,7 @@ def decrypt_kept(ctx):
                         f = [lib.env_field_of(p) for p in sl.places]
                         for fi in [x for x in f if x is not None]:
                             pb, op = lib.upvar_operand(F, cb, fi)
-                            if pb is not None and any(r[0] == 'param' and pb.var_name(r[1]) == 'rights'
+                            if pb is not None and any(r[0] == 'param' and 'AttributeStatus' in pb.local_ty(r[1]) and 'HashMap<' in pb.local_ty(r[1])
                                                       for r in root_descr(pb, op)):
                                 ok = True
                 ctx.check(ok, 'core::primitives::update_msk', 'retain(rights.contains_key)',
